@@ -24,6 +24,8 @@ EXPECT_FIRE = {"windowPublish": "PUBACK", "windowPubRelease": "PUBCOMP", "window
 
 def check(ctx):
     a = ctx.a
+    from .c03 import framing_premise
+    framing_premise(ctx, 'R-FRAME', 'an acknowledgement that is mis-framed fires the wrong publish request, or none')
     caps, pm, _ = capabilities(a)
     classes = [c for c in a.protos if "pub" in caps.get(c.qual, set())]
     ctx.floor("publisher-capable classes", len(classes), 2)
